@@ -292,7 +292,7 @@ def c18_validator_shape(ctx: Ctx):
     sparam = 'storage_path' if 'storage_path' in ps else (ps[1] if len(ps) > 1 else None)
     if sparam is None:
         raise AnalysisError('validator has no storage_path parameter')
-    facts = ctx.facts(v, exc=False)
+    facts = ctx.facts(v, exc=True)
 
     def exp(e, at):
         return expand_locals(g, rd, e, at)
@@ -435,7 +435,7 @@ def c18_guarded_file(ctx: Ctx):
         g = ctx.cfg(m)
         rd = ctx.rd(m)
         fb = ctx.fb(m)
-        facts = ctx.facts(m, exc=False)
+        facts = ctx.facts(m, exc=True)
         for (call, operand, eff, _w) in sinks(ctx, m):
             at = g.primary(call)
             pv = provenance(ctx, m, operand, at, root, k2p)
